@@ -178,3 +178,20 @@ package store
 //@   requires a != nil
 //@   ensures result == len(a.alerts)
 //@   assigns nothing
+
+// constructors: a new store is empty, not destroyed and has no per-alert-name limit until WithPerAlertLimit sets one
+//@ func NewAlerts
+//@   props C18 C03
+//@   ensures [empty-store] result != nil && fresh(result) && result.alerts != nil && fresh(result.alerts) && len(result.alerts) == 0 && result.perAlertLimit == 0 && !result.destroyed
+//@   assigns nothing
+//@ func (*Alerts).SetGCCallback
+//@   props C03
+//@   requires a != nil
+//@   ensures [callback-installed] a.gcCallback == cb
+//@   ensures [monitor-lock-released] count("Mutex).Lock") == 1 && count("Mutex).Unlock") == 1
+//@   assigns a.gcCallback
+//@ func (*Alerts).WithPerAlertLimit
+//@   props C18
+//@   requires a != nil
+//@   ensures [limit-installed] result == a && a.perAlertLimit == lim && a.limits != nil && fresh(a.limits) && len(a.limits) == 0
+//@   assigns a.perAlertLimit, a.limits
